@@ -66,6 +66,8 @@ def run(ctx):
             sources.append(("gen-meta%d.sunsynth" % i, api.Synth(gen.rand_module(rnd, cl["MetaModule"], spec, depth=1, in_project=False)).read()))
         finally:
             gen.FORCE_UDC = None
+    for i in range(3 if q else 40):      # Samplers (boundary slots, long envelopes, embedded effect)
+        sources.append(("gen-sampler%d.sunsynth" % i, api.Synth(gen.rand_module(rnd, cl["Sampler"], spec, depth=1, in_project=False)).read()))
     nfix = 0
     for name, data in sources:
         base = tlv.to_json_nested(data)
